@@ -66,13 +66,17 @@ package absnfs
 //@ ensures [timeouts] (t.Timeouts == nil ==> result.Timeouts == nil) && (t.Timeouts != nil ==> result.Timeouts != nil && *result.Timeouts == *t.Timeouts)
 //@ ensures [log] (t.Log == nil ==> result.Log == nil) && (t.Log != nil ==> result.Log != nil && *result.Log == *t.Log)
 //@ ensures [ratelimit] (p.RateLimitConfig == nil ==> result.RateLimitConfig == nil) && (p.RateLimitConfig != nil ==> result.RateLimitConfig != nil && *result.RateLimitConfig == *p.RateLimitConfig)
+//@ ensures [tls-copy] (p.TLS == nil ==> result.TLS == nil) && (p.TLS != nil ==> result.TLS != nil && fresh(result.TLS) && result.TLS.Enabled == p.TLS.Enabled && result.TLS.MinVersion == p.TLS.MinVersion && result.TLS.ClientAuth == p.TLS.ClientAuth)
 
 //@ func AbsfsNFS.GetExportOptions
-//@ prop C24
+//@ prop C24 C30
 //@ modifies locks
 //@ requires n != nil && curTuning(n) != nil && curPolicy(n) != nil
 // GetExportOptions reports the configuration in force
 //@ ensures [tuning-in-force] result.TransferSize == curTuning(n).TransferSize && result.AttrCacheTimeout == curTuning(n).AttrCacheTimeout && result.AttrCacheSize == curTuning(n).AttrCacheSize && result.NegativeCacheTimeout == curTuning(n).NegativeCacheTimeout && result.DirCacheTimeout == curTuning(n).DirCacheTimeout && result.DirCacheMaxEntries == curTuning(n).DirCacheMaxEntries && result.DirCacheMaxDirSize == curTuning(n).DirCacheMaxDirSize && result.MaxConnections == curTuning(n).MaxConnections && result.IdleTimeout == curTuning(n).IdleTimeout && result.SendBufferSize == curTuning(n).SendBufferSize && result.ReceiveBufferSize == curTuning(n).ReceiveBufferSize && result.MaxWorkers == curTuning(n).MaxWorkers && result.CacheNegativeLookups == curTuning(n).CacheNegativeLookups && result.EnableDirCache == curTuning(n).EnableDirCache && result.TCPKeepAlive == curTuning(n).TCPKeepAlive && result.TCPNoDelay == curTuning(n).TCPNoDelay && result.Async == curTuning(n).Async
+// C30 (documented rotation: ReloadCertificates on GetExportOptions().TLS): the TLS settings handed out
+// are the ones the listener's certificate callback reads
+//@ ensures [kf-tls-live] {C30} result.TLS == curPolicy(n).TLS
 //@ ensures [policy-in-force] result.ReadOnly == curPolicy(n).ReadOnly && result.Secure == curPolicy(n).Secure && result.Squash == curPolicy(n).Squash && result.MaxFileSize == curPolicy(n).MaxFileSize && result.EnableRateLimiting == curPolicy(n).EnableRateLimiting
 
 //@ func AbsfsNFS.UpdateTuningOptions
